@@ -12,6 +12,11 @@ import GrafeoModel.Driver.Algo
 import GrafeoModel.Driver.Hnsw
 import GrafeoModel.Driver.Pers
 import GrafeoModel.Driver.Lex
+import GrafeoModel.Driver.Plan
+import GrafeoModel.Driver.Conc
+import GrafeoModel.Driver.Mem
+import GrafeoModel.Driver.Zm
+import GrafeoModel.Driver.Query
 
 /-!
 `gdriver`: reads op lines `<stream> <op> <arg>*` on stdin, writes one line per op:
@@ -26,6 +31,7 @@ structure DState where
   lpg : DriverLpg.St := {}
   sess : DriverSess.St := {}
   pers : DriverPers.St := {}
+  zm : DriverZm.St := {}
 
 def dispatch (st : DState) (line : String) : DState × String :=
   let toks := (line.trimAscii.toString.splitOn " ").filter (· ≠ "")
@@ -60,9 +66,48 @@ def dispatch (st : DState) (line : String) : DState × String :=
       match DriverHnsw.handle args with
       | some o => (st, o.render)
       | none => (st, "bad-op")
+    else if stream == "plan" then
+      match DriverPlan.handle args with
+      | some o => (st, o.render)
+      | none => (st, "bad-op")
+    else if stream == "conc" then
+      match DriverConc.handle args with
+      | some o => (st, o.render)
+      | none => (st, "bad-op")
+    else if stream == "mem" then
+      match DriverMem.handle args with
+      | some o => (st, o.render)
+      | none => (st, "bad-op")
     else if stream == "lex" then
       match DriverLex.handle args with
       | some o => (st, o.render)
+      | none => (st, "bad-op")
+    else if stream == "opt" then
+      match args with
+      | "run" :: rest =>
+        match DriverQuery.handle ("optrun" :: rest) with
+        | some o => (st, o.render)
+        | none => (st, "bad-op")
+      | "cfg" :: rest =>
+        match DriverQuery.handle ("optcfg" :: rest) with
+        | some o => (st, o.render)
+        | none => (st, "bad-op")
+      | "hist" :: rest =>
+        match DriverQuery.handle ("opthist" :: rest) with
+        | some o => (st, o.render)
+        | none => (st, "bad-op")
+      | "cache2" :: rest =>
+        match DriverQuery.handle ("optcache2" :: rest) with
+        | some o => (st, o.render)
+        | none => (st, "bad-op")
+      | _ => (st, "bad-op")
+    else if stream == "q" then
+      match DriverQuery.handle args with
+      | some o => (st, o.render)
+      | none => (st, "bad-op")
+    else if stream == "zm" then
+      match DriverZm.handle st.zm args with
+      | some (t', o) => ({ st with zm := t' }, o.render)
       | none => (st, "bad-op")
     else if stream == "tx" then
       match DriverTx.handle st.tx args with
